@@ -130,6 +130,12 @@ func (s *Server) ListStores(ctx context.Context, req *openfgav1.ListStoresReques
 		return nil, err
 	}
 
+	if storeIDs != nil && len(storeIDs) == 0 {
+		// The caller may list stores but can get none of them. An empty ID filter means
+		// "no filter" to the datastore, so answer here instead of listing every store.
+		return &openfgav1.ListStoresResponse{Stores: []*openfgav1.Store{}}, nil
+	}
+
 	// even though we have the list of store IDs, we need to call ListStoresQuery to fetch the entire metadata of the store.
 	q := commands.NewListStoresQuery(s.datastore,
 		commands.WithListStoresQueryLogger(s.logger),
